@@ -560,7 +560,17 @@ func binaryWithContract() vh.Unit {
 		node.LoseSendReplies.Store(1)
 		r1, err1 := withdraw(w2)
 		node.LoseSendReplies.Store(0)
-		r2, err2 := withdraw(w2) // the wallet's owner tries again
+		// the wallet's owner tries again - once the pool has heard from the chain what became of the
+		// deposit (the Balance event of a transaction whose reply was lost arrives a moment later;
+		// a retry inside that moment is not judged: the pool cannot know yet)
+		for i := 0; i < 1200; i++ {
+			chainDep, _ := node.OnChain(w2)
+			if poolDep, _, err := account(w2); err == nil && poolDep.Cmp(chainDep) == 0 {
+				break
+			}
+			time.Sleep(100 * time.Millisecond)
+		}
+		r2, err2 := withdraw(w2)
 		wireStep(u)
 		if err1 != nil || err2 != nil {
 			u.Violate("wire/read-failed", fmt.Sprint(err1, err2), nil)
